@@ -23,13 +23,13 @@ claimed = {
  'C15': ('before/after exact values + restriction probes + raw stores vs reference entries', 'Every successful redelegation is checked for exact value movement, no payout, unchanged totals/custody and a recorded entry; after every step probe transactions on a branch check that the onward-hop restriction holds exactly while a reference entry is pending; after every end-of-block the raw records, source index and time queue equal the reference entries.', '5/C15'),
  'C16': ('generated governance traffic + store diff + asset predicate', 'Governance messages and legacy contents with every signer kind and fuzzed fields in all asset states: success implies signer = authority, rejection implies byte-identical module store, stored-asset predicate after every step, protected fields preserved by updates, delete only when empty, create only once.', '5/C16'),
  'C04': ('before/after exact-rational value of every position + round-trip probes', 'For every successful delegate/undelegate/redelegate/claim the exact-rational value of EVERY position is compared before and after: actor +-amount, everybody else unchanged, other assets exactly unchanged, within one base unit plus the 18-digit budget scaled by the share price; reported values sum <= staked total + one per position; fresh-delegation round-trip probes on branches.', '5/C04'),
- 'C05': ('non-destructive probe transactions on branches', 'After every k-th step probe transactions on discarded branches: delegate 1 unit and a large amount of every asset to every validator, claim and fully undelegate every position with a positive reported balance; each must succeed; failures are matched quantitatively against recorded mechanisms (known_findings.json) and are violations otherwise.', '5/C05'),
+ 'C05': ('non-destructive probe transactions on branches', 'After every k-th step probe transactions on discarded branches: delegate 1 unit and a large amount of every asset to every validator, claim and fully undelegate every position with a positive reported balance, undelegate from every delegation record whose validator record is gone; each must succeed; failures are matched quantitatively against recorded mechanisms (known_findings.json) and are violations otherwise.', '5/C05'),
  'C09': ('per-block arithmetic oracle (2048-bit reference power) + deposit log', 'Around every end-of-block: trigger condition, n whole intervals, new total floor(T*(1-r)^n) within the 18-digit budget (never zero), exact transfer to the fee collector from the event log, clock advanced by exactly n intervals, common shrink factor of all positions, untouched warm-up/zero-rate assets, and a reference deposit log deciding retroactive charging (recorded finding clock-lag).', '5/C09'),
  'C12': ('probe: claim everything in three orders on branches + cumulative pool ledger', 'After every k-th step every delegation is claimed on branches in three orders and every claim must succeed; total paid <= total received per denom from the event log; solvency failures are classified with the exact entitlement (E) and implemented index x current-value (Q) columns of the reward shadow.', '5/C12'),
  'C13': ('entitlement at receipt (exact rationals) + settle-before-change + immediate-claim probes', 'Every withdraw_rewards of the module is attributed from the eager pre-step snapshot by weight x asset share and pro rata to exact position values; every explicit or implicit claim without value-changing event since accrual must pay that entitlement within the derived bounds; stake-changing steps with rewards pending must settle first; probe claims right after delegate/redelegate pay nothing; second claim pays nothing; claims are stake-neutral.', '5/C13'),
  'C14': ('per-block arithmetic oracle + settle-before-change on weight changes', 'Weight within range after every step; due decays equal clamp(w*rate^n) against a 2048-bit reference, clock advanced by exactly n intervals, clock restarts when governance configures decay; every step that stores a different weight must withdraw rewards pending for the module first; warm-up assets not charged / not initialised early.', '5/C14'),
  'C18': ('export -> wipe -> import on a branch, lock-step continuation', 'At every 5th block boundary: second export byte-identical; a 14-step continuation (operations, slashes of validators with pending entries, maturity jumps) runs on the original and the re-imported state in lock-step; results, event digests, balances, supply, validator states, exports and queries compared after every step.', '5/C18'),
- 'C19': ('replays on sibling branches with byte comparison; race detector run in thorough', 'Every history is replayed twice from its explicit step list on sibling branches in one process; results, event digests and SHA-256 of the raw alliance/bank/staking/distribution/slashing/auth stores compared after every step/block. The static source-scan clause of the property is out of reach of runtime monitoring and is not decided.', '5/C19'),
+ 'C19': ('replays on sibling branches with byte comparison, every other replay interleaved with discarded-branch (ghost) executions; race detector run in thorough', 'Every history is replayed twice from its explicit step list on sibling branches in one process, one of the replays with each step first executed on a branch that is thrown away (state kept outside the store shows up as a divergence); results, event digests and SHA-256 of the raw alliance/bank/staking/distribution/slashing/auth stores compared after every step/block. The static source-scan clause of the property is out of reach of runtime monitoring and is not decided.', '5/C19'),
  'C20': ('independent enumeration of primary records vs every query and binding', 'Every gRPC query for all filter arguments from the live state (plus absent ones), unpaginated and stitched from key/offset pages and with count_total, compared as multisets with an independent raw-store enumeration and the reference entries; reported balance probed with Undelegate(balance)/(balance+1); contract bindings compared field by field with gRPC.', '5/C20'),
  'C17': ('recover around every end-of-block under accepted-configuration fuzz', 'Every end-of-block of every history of the gov/extreme/time profiles must return without error or panic; configuration values are only those the modules own handlers accepted on the main line.', '5/C17'),
 }
@@ -65,7 +65,7 @@ m = {
  'engines': [{'name': 'vmon', 'path': '/verif/vmon', 'serves_properties': sorted(claimed), 'kind_free_text': 'Go program driving the real alliance app in-process (module manager Begin/EndBlocker, message router, real evidence/downtime slashes) under seeded hostile workloads with online monitors; child process per index range; explicit replay files'}],
  'checks': checks,
  'not_applicable': na,
- 'notes': 'Known findings (genuine defects recorded, not repaired) are listed in /verif/known_findings.json; repaired defects are the fix: commits of /repo, listed there with status fixed.',
+ 'notes': 'Known findings (genuine defects recorded, not repaired) are the open entries of /verif/known_findings.json, each with a cause predicate implemented in its monitor and a committed witness history (findings/<property>-<cause>.json) that every run of the check re-executes; repaired defects are the fix: commits of /repo, listed in the same file under "fixed" as lines "fixed: property=<id> <commit> <what failed>" (they suppress nothing). Seeded changes and what detects them: /verif/seeded (MATRIX*.tsv), /verif/mutants.',
 }
 json.dump(m, open('/verif/MANIFEST.json','w'), indent=1)
 print('claimed', len(checks), 'not_applicable', len(na))
